@@ -1471,6 +1471,8 @@ class Executor:
                 return self.wrap(getattr(base.obj, name))
             except AttributeError:
                 raise Unsupported(f"attribute {name} of {base.obj!r}")
+        if isinstance(base, Prim) and base.name == "tuple" and name == "__new__":
+            return VConst(tuple.__new__)
         if isinstance(base, VNone):
             raise Unsupported(f"attribute {name} of None at {self.where(node)}")
         if isinstance(base, VInt) and name in ("real",):
@@ -1531,6 +1533,9 @@ class Executor:
                 return
             if getattr(obj, "__name__", None) == "get" and isinstance(getattr(obj, "__self__", None), dict):
                 yield self.const_dict_get(st, obj.__self__, args[0], args[1] if len(args) > 1 else NONE), st
+                return
+            if obj is tuple.__new__ and len(args) == 2 and isinstance(args[1], VTuple):
+                yield args[1], st          # a tuple subclass instance with the same items
                 return
             if obj is object.__new__:
                 cls = args[0].obj
